@@ -43,6 +43,7 @@ TFile == /\ IsEvent("File")
                /\ Expect(d.free = E.graph.free /\ d.flrun = SeqSet(E.graph.fl), <<"free list: Format.tla vs the Go decoder", d.free>>)
                /\ Expect(Consistent([hwm |-> d.hwm, reach |-> d.pages, free |-> d.free, fl |-> d.flrun, hasfl |-> d.freelist # -1,
                                      badtype |-> 0, disorder |-> 0]), "accounting predicate fails on a file produced by commits (C07)")
+               /\ \A i \in 1..Len(E.pinfo) : Expect(PageInfoOK(f, d, E.pinfo[i]), <<"Tx.Page differs from the page header / free list; page", E.pinfo[i]>>)
 
 TMetas == /\ IsEvent("Metas")
           /\ LET f == [b |-> E.m0 \o E.m1, ps |-> 80]
@@ -88,6 +89,10 @@ TShape == /\ IsEvent("Shape")
           /\ Expect(BT!BalancedOK(E.pages), "leaves of one bucket are on different levels")
           /\ Expect(BT!RootOK(E.pages) /\ BT!LeafOK(E.pages) /\ BT!BranchOK(E.pages), "empty non-root leaf, or branch page with fewer than two children")
           /\ Expect(BT!InlineOK(E.buckets, E.ps), "an inline bucket holds nested buckets or is larger than a quarter page")
+          \* Bucket.Stats() of every top-level bucket, as reported by the real code, is the function of the shape BTree.tla defines
+          /\ \A i \in 1..Len(E.stats) :
+                LET want == BT!StatsOf(E.pages, E.buckets, E.ps, E.stats[i].id) IN
+                Expect(\A f \in DOMAIN want : E.stats[i][f] = want[f], <<"Bucket.Stats differs from the tree; specification says", want, "reported", E.stats[i]>>)
 
 EInit == l = 1
 ENext == TFile \/ TMetas \/ TGraph \/ TSurgery \/ TShape
